@@ -7,6 +7,6 @@ for t in ('cbmc', 'goto-cc', 'goto-instrument', 'cmake', 'gcc'):
     if r.returncode != 0:
         print('missing tool', t)
         sys.exit(1)
-for c in ('base', 'w8', 'p128'):
+for c in ('base', 'w8', 'p128', 'p64'):
     print(c, E.conf_dir(c))
 print('setup ok')
